@@ -45,7 +45,7 @@ func GenScript(r *hx.Rand, kinds []string, nops int) []string {
 	case "flati", "ac":
 		insts = []string{"a", "b", "-"}
 	default:
-		insts = []string{"-", "a", "ab", "a/b", "a/b/c", "b"}
+		insts = []string{"-", "a", "ab", "a/b", "a/b/c", "b", "a-", "a-/b", "a/b-c"}
 	}
 	nobj := r.Range(3, 7)
 	for i := 0; i < nobj; i++ {
